@@ -67,6 +67,7 @@ type recorder struct {
 	caseN       int
 	ops         int
 	unsupported int
+	nilVariant  bool // Go-level nil messages planted: validity flags of element views are free
 }
 
 // libReadOps mirrors IsRead of spec/Reflect.tla (+ "New"): no state is logged for them.
@@ -100,7 +101,7 @@ func (r *recorder) emit(a *addr, md protoreflect.MessageDescriptor, name string,
 	}
 	root, path := a.resolve()
 	op.P, op.Nil, op.NT = path, a.nilmsg, string(md.FullName())
-	e := map[string]any{"ev": "op", "r": root, "op": op, "ret": retJSON(ret), "st": proj.J{"f": proj.J{}, "u": []int{}}, "new": len(r.roots)}
+	e := map[string]any{"ev": "op", "r": root, "op": op, "ret": retJSON(ret), "st": proj.J{"f": proj.J{}, "u": []int{}}, "new": len(r.roots), "nv": r.nilVariant}
 	if !libReadOps[name] && !a.nilmsg {
 		var st proj.J
 		if pn := catch(func() { st = r.state(root) }); pn != "" {
@@ -585,7 +586,7 @@ func docEq(a, b []byte) bool {
 }
 
 // libSide runs the whole library programme on one implementation of the value v / other o.
-func libSide(w *bufio.Writer, side string, caseN int, mt protoreflect.MessageType, md protoreflect.MessageDescriptor, vj, oj proj.J) (ops, unsupported int) {
+func libSide(w *bufio.Writer, side string, caseN int, mt protoreflect.MessageType, md protoreflect.MessageDescriptor, vj, oj proj.J, nilVariant bool) (ops, unsupported int) {
 	mk := func(j proj.J) proto.Message {
 		if side == "impl" {
 			p := newPulsar(mt)
@@ -605,7 +606,12 @@ func libSide(w *bufio.Writer, side string, caseN int, mt protoreflect.MessageTyp
 
 	cur := mk(vj)
 	other := mk(oj)
-	r := &recorder{side: side, w: w, caseN: caseN}
+	if nilVariant && side == "impl" {
+		// Go-level state: empty messages held in maps, lists and oneof wrappers become nil pointers
+		// (same abstract value); only the read-only algorithms are run on it
+		plantNil(reflect.ValueOf(cur))
+	}
+	r := &recorder{side: side, w: w, caseN: caseN, nilVariant: nilVariant && side == "impl"}
 	root := r.newRoot(cur.ProtoReflect())
 	px := &recProto{root}
 	r.write(map[string]any{"ev": "load", "v": r.state(0)})
@@ -644,6 +650,9 @@ func libSide(w *bufio.Writer, side string, caseN int, mt protoreflect.MessageTyp
 		h = rp.m.a.root
 	}
 	done("clone", "Clone", pn, h > 0, false, false, h, empty)
+	if nilVariant {
+		return r.ops, r.unsupported
+	}
 	// Merge
 	pn = call("Merge", func() { proto.Merge(px, other) })
 	done("merge", "Merge", pn, true, false, false, 0, empty)
@@ -713,9 +722,19 @@ func cmdLibRecord(args []string) {
 		w.Write(b)
 		w.WriteByte('\n')
 		for _, side := range []string{"ref", "impl"} {
-			a, u := libSide(w, side, c, mt, md, vj, oj)
+			a, u := libSide(w, side, c, mt, md, vj, oj, false)
 			ops += a
 			uns += u
+		}
+		if c%2 == 1 {
+			b, _ := json.Marshal(map[string]any{"ev": "new", "t": *typ, "case": 1000 + c, "side": "both"})
+			w.Write(b)
+			w.WriteByte('\n')
+			for _, side := range []string{"ref", "impl"} {
+				a, u := libSide(w, side, 1000+c, mt, md, vj, oj, true)
+				ops += a
+				uns += u
+			}
 		}
 	}
 	b, _ := json.Marshal(map[string]any{"ev": "summary", "side": "both", "case": *n, "ops": ops, "unsupported": uns})
